@@ -274,7 +274,9 @@ func (te *tableEngine) settleGame() []*TablePlayerState {
 	for _, player := range te.table.State.GameState.Result.Players {
 		playerIdx := te.table.State.GamePlayerIndexes[player.Idx]
 		playerState := te.table.State.PlayerStates[playerIdx]
-		playerState.Bankroll = player.Final
+		// credit the hand's result instead of overwriting: chips added to the bankroll while the
+		// hand was running (re-buy, add-on) are not part of the hand and must survive it
+		playerState.Bankroll += player.Changed
 
 		// 更新玩家攤牌勝率
 		p := te.table.State.GameState.GetPlayer(player.Idx)
